@@ -1,5 +1,6 @@
 import FlVerif.Lemmas.CodeRaised
 import FlVerif.Lemmas.CodeLoad
+import FlVerif.Lemmas.CodeLoadAnte
 import FlVerif.Op.PyExtSession
 
 /-! # `Consequent.load` / `Antecedent.load` translated with the state kept at a raise: a failing load leaves its own
@@ -208,5 +209,98 @@ theorem consLoad_external_is_code (e : EngineInfo) (r : Py.Sess.RuleObj) (loaded
       rw [h1] at h3
       cases h3
       exact ⟨σ, rfl, by rw [h4]; exact h2, rfl⟩
+
+/-! ## the external `Py.Sess.anteLoad` of `Rule.load` is what the translated `Antecedent.load` does -/
+
+theorem anteLoad_rs_of_plain_error (e : EngineInfo) (post : String → Py.M String) (text : String)
+    (l0 : Py.Load.Expression) (x : Py.Err) (h : Antecedent_load.run e post text {} = .error x) :
+    ∃ σ, Antecedent_load_rs.run e post text l0 {} = .error (x, σ) ∧ σ.self_expression = Py.Load.Expression.none := by
+  have hr := code_antecedentLoad_raise_unloaded e post text l0
+  cases hrun : Antecedent_load_rs.run e post text l0 {} with
+  | error q =>
+    obtain ⟨err, σ⟩ := q
+    rw [hrun] at hr
+    obtain ⟨h1, h2⟩ := hr
+    rw [h] at h2; cases h2
+    exact ⟨σ, rfl, h1⟩
+  | ok σ =>
+    rw [hrun] at hr
+    obtain ⟨σ', h1, -⟩ := hr
+    rw [h] at h1; cases h1
+
+theorem anteLoad_rs_of_plain_ok (e : EngineInfo) (post : String → Py.M String) (text : String)
+    (l0 : Py.Load.Expression) (σ' : Antecedent_load.S) (h : Antecedent_load.run e post text {} = .ok σ') :
+    ∃ σ, Antecedent_load_rs.run e post text l0 {} = .ok σ ∧ σ.self_expression = σ'.self_expression := by
+  have hr := code_antecedentLoad_raise_unloaded e post text l0
+  cases hrun : Antecedent_load_rs.run e post text l0 {} with
+  | error q =>
+    obtain ⟨err, σ⟩ := q
+    rw [hrun] at hr
+    obtain ⟨-, h2⟩ := hr
+    rw [h] at h2; cases h2
+  | ok σ =>
+    rw [hrun] at hr
+    obtain ⟨σ'', h1, h2⟩ := hr
+    rw [h] at h1; cases h1
+    exact ⟨σ, rfl, h2⟩
+
+/-- the callee `Function.infix_to_postfix` behaves like its model (`C17.code_toPostfix` ties the translated function to
+    it): it raises the class the model predicts, and otherwise returns a text whose words are the model's postfix
+    tokens -/
+def PostIsModel (tbl : Lang.Table) (post : String → Py.M String) : Prop :=
+  ∀ text, match toPostfix tbl (formatInfix tbl text) with
+    | .error k => post text = .error k.toPy
+    | .ok p => ∃ s, post text = .ok s ∧ Py.split s = p
+
+/-- **The external `Py.Sess.anteLoad` (the call `self.antecedent.load(engine)` inside the translated `Rule.load`) is the
+    translated `Antecedent.load`, also in what it leaves behind at a raise** - for a callee `infix_to_postfix` that
+    behaves like its model: the external returns the rule with the tree the translated function assigns, and when it
+    raises, the translated function raises the same class with `self.expression = None` in the record at the raise. -/
+theorem anteLoad_external_is_code (tbl : Lang.Table) (e : EngineInfo) (r : Py.Sess.RuleObj) (loaded0 : Py.Load.Expression)
+    (post : String → Py.M String) (hp : PostIsModel tbl post) :
+    match Py.Sess.anteLoad tbl e r with
+    | .ok r' => ∃ σ, Antecedent_load_rs.run e post (joinWords r.parsed.ante) loaded0 {} = .ok σ ∧
+        exprA σ.self_expression = r'.ante ∧ r' = { r with ante := r'.ante }
+    | .error (err, r') => ∃ σ, Antecedent_load_rs.run e post (joinWords r.parsed.ante) loaded0 {} = .error (err, σ) ∧
+        exprA σ.self_expression = r'.ante ∧ r' = { r with ante := none } := by
+  have hm := code_antecedentLoad e post (joinWords r.parsed.ante)
+  have hpt := hp (joinWords r.parsed.ante)
+  unfold Py.Sess.anteLoad antecedentLoad
+  generalize joinWords r.parsed.ante = text at hm hpt ⊢
+  by_cases ht : text = ""
+  · subst ht
+    simp only [if_true] at hm
+    obtain ⟨σ, h1, h2⟩ := anteLoad_rs_of_plain_error e post "" loaded0 _ hm
+    simp only [String.isEmpty_iff.mpr rfl, if_true]
+    exact ⟨σ, h1, by rw [h2]; rfl, trivial⟩
+  · have h1 : text.isEmpty = false := by
+      rw [Bool.eq_false_iff]; exact fun hh => ht (String.isEmpty_iff.mp hh)
+    simp only [ht, if_false] at hm
+    simp only [h1, Bool.false_eq_true, if_false, antecedentLoadTokens]
+    cases hq : toPostfix tbl (formatInfix tbl text) with
+    | error k =>
+      rw [hq] at hpt
+      simp only at hpt
+      rw [hpt] at hm
+      simp only at hm
+      obtain ⟨σ, h2, h3⟩ := anteLoad_rs_of_plain_error e post text loaded0 _ hm
+      exact ⟨σ, by rw [errOfKind_eq_toPy]; exact h2, by rw [h3]; rfl, rfl⟩
+    | ok p =>
+      rw [hq] at hpt
+      obtain ⟨s, hs, hsp⟩ := hpt
+      rw [hs] at hm
+      simp only [hsp] at hm
+      simp only []
+      cases hl : antecedentLoadPostfix e p with
+      | error k =>
+        rw [hl] at hm
+        simp only at hm
+        obtain ⟨σ, h2, h3⟩ := anteLoad_rs_of_plain_error e post text loaded0 _ hm
+        exact ⟨σ, by rw [errOfKind_eq_toPy]; exact h2, by rw [h3]; rfl, rfl⟩
+      | ok a =>
+        rw [hl] at hm
+        obtain ⟨σ', h2, h3⟩ := hm
+        obtain ⟨σ, h4, h5⟩ := anteLoad_rs_of_plain_ok e post text loaded0 σ' h2
+        exact ⟨σ, h4, by rw [h5]; exact h3, rfl⟩
 
 end Op
